@@ -141,10 +141,13 @@ func (e *Enc) instr(cur *cursor, ins ssa.Instruction) {
 			if !isNonNilValue(x.X) {
 				e.safety(cur, "nil", fmt.Sprintf("(not (= %s Nil))", bt), x.Pos(), "nil dereference at field "+si.st.Field(x.Field).Name())
 			}
+			outer := append(append([]outerRef{}, base.Outer...), outerRef{bt, st0})
 			if isStruct(ft) && e.m.structOf(ft) != nil {
-				fc.vals[x] = term(fmt.Sprintf("(Fld %s %d)", bt, x.Field), x.Type())
+				v := term(fmt.Sprintf("(Fld %s %d)", bt, x.Field), x.Type())
+				v.Outer = outer
+				fc.vals[x] = v
 			} else {
-				fc.vals[x] = Val{K: vFieldRef, Base: bt, SI: si, Field: x.Field, Ty: x.Type()}
+				fc.vals[x] = Val{K: vFieldRef, Base: bt, SI: si, Field: x.Field, Ty: x.Type(), Outer: outer}
 			}
 		}
 	case *ssa.Field:
@@ -441,6 +444,11 @@ func (e *Enc) unop(cur *cursor, x *ssa.UnOp) {
 			e.setVal(cur, x, v)
 		case vFieldRef:
 			e.tinvAssumeLoad(cur, addr.Base, addr.SI.named)
+			for _, o := range addr.Outer {
+				if e.tinvName(o.ty) != "" {
+					e.tinvAssumeLoad(cur, o.addr, o.ty)
+				}
+			}
 			n, s := e.fieldArr(addr.SI, addr.Field)
 			e.setVal(cur, x, fmt.Sprintf("(select %s %s)", e.heapGet(st, n, s), addr.Base))
 			e.assume(cur.guard, e.typeAssume(st, fc.vals[x].T, x.Type()))
